@@ -42,9 +42,14 @@ def script(sc):
             # whatever checkpoints and read-only commands fall in between, the person's lines stay the person's
             fa, fb = rng.sample(sc.files, 2)
             sc.do_edit(author=rng.choice(sc.sessions), f=fa, kinds=["ins"])
-            sc.do_edit(author="human", f=fb, kinds=["ins"])
-            sc.do_edit(author="human", f=fa, kinds=["ins"])
-            sc.do_edit(author="human", f=fb, kinds=["ins"])
+            sc.do_edit(author="human", f=fb, kinds=["ins"], ckpt=False)
+            sc.w.human_ckpt([fa, fb])                                        # on record: a person-only entry for fb in the working log
+            sc.do_edit(author="human", f=fa, kinds=["ins"], ckpt=False)
+            sc.do_edit(author="human", f=fb, kinds=["ins"], ckpt=False)
+            if "readonly" in sc.variant:
+                # read-only for the user; git-ai takes a commit-style checkpoint around it
+                sc.w.git(*sc.vrng.choice([["stash", "list"], ["stash", "show"], ["commit", "--dry-run"]]), tick=False)
+                sc.stats["readonly_cmds"] += 1
             sc.do_edit(author=rng.choice(sc.sessions), f=fb, kinds=["ins"])
             sc.ops.append("two-file-person-then-agent")
         kind = rng.choice(["all", "all", "files", "hunks"])
